@@ -304,7 +304,7 @@ impl Prop for C14 {
         format!(
             "IR level: every tirgen tree ({} contexts{} x 5 probes x {} placements) x every value of the probe's boundary alphabet (37 integers, byte / \
              address lengths {}, utxo-ref txid lengths, 9 wrong-typed values) x 5 stores (one of sibling outputs of one transaction; the k-th query gets two UTxOs starting at the k-th) x 6 protocol-parameter sets (full product of alphabet with the \
-             default store/pparams; stores x pparams with the default value). Constants of every kind and of sizes around 28 / 29 / 32 / 57 bytes in each of the 19 fields and in every key of every chain-specific directive; two-level trees whose outer context computes with its operand. Language level: every tx of the corpus x every parameter x its boundary \
+             default store/pparams; stores x pparams with the default value). Constants of every kind and of sizes around 28 / 29 / 32 / 57 bytes in each of the 19 fields and in every key of every chain-specific directive; every directive with every subset of its keys present; signers and reference lists of every sequence of length <= 4 over three items (repeats in every position); two-level trees whose outer context computes with its operand. Language level: every tx of the corpus x every parameter x its boundary \
              alphabet (one non-default argument at a time{}) x stores x pparams. Each combination is driven through resolve_tx and through \
              apply_args / apply_fees / reduce / compiler ops / apply_inputs / reduce / compile (continuing after errors) and a second round of compiler ops / compile on the same instance; every template also with its outputs removed and with every output optional and empty. Oracle: every call returns \
              Ok or Err. Non-trivial = at least one back-end call executed; distinct = (subject, argument, store, pparams).",
@@ -348,6 +348,12 @@ impl Prop for C14 {
                 sink.case(|| json!({"kind": "directive-leaves", "directive": d, "key": k}));
             }
         }
+        // every directive with every subset of its keys present (a key that is missing is another shape than a key
+        // that holds nothing), and lists of signers / references / collateral refs with repeats in every position
+        for (d, _) in DIRECTIVES.iter().enumerate() {
+            sink.case(|| json!({"kind": "directive-subsets", "directive": d}));
+        }
+        sink.case(|| json!({"kind": "repeated-items"}));
         if !tier.is_thorough() {
             // two-level trees whose outer context computes with its operand (arithmetic, concatenation, a query's
             // threshold): one drive each with comfortable arguments
@@ -423,6 +429,56 @@ impl Prop for C14 {
                 }
                 // a missing argument and an empty argument map
                 drive(&tx, &ArgMap::new(), &all_stores[0].1, &all_pp[0].1, &mut o, &json!({"file": case["file"], "tx": name, "args": "none"}), qual);
+            }
+            return o;
+        }
+        if case["kind"] == "directive-subsets" {
+            use tir::Expression as E;
+            let (dname, keys) = DIRECTIVES[case["directive"].as_u64().unwrap_or(0) as usize];
+            for mask in 0..(1u32 << keys.len()) {
+                let mut tx = directive_tx(dname, keys, "", E::None);
+                let d = tx.adhoc.last_mut().unwrap();
+                d.data.clear();
+                for (i, k) in keys.iter().enumerate() {
+                    if mask & (1 << i) != 0 {
+                        let v = match *k {
+                            "redeemer" | "datum" => E::Number(1),
+                            other => directive_tx(dname, keys, "", E::None).adhoc.last().unwrap().data.get(other).cloned().unwrap_or(E::None),
+                        };
+                        d.data.insert(k.to_string(), v);
+                    }
+                }
+                let present: Vec<&str> = keys.iter().enumerate().filter(|(i, _)| mask & (1 << i) != 0).map(|(_, k)| *k).collect();
+                drive(&tx, &ArgMap::new(), &all_stores[0].1, &all_pp[0].1, &mut o, &json!({"directive": dname, "keys-present": present}), "ir-level");
+                o.key(hash64(&(dname, mask)));
+            }
+            return o;
+        }
+        if case["kind"] == "repeated-items" {
+            use tir::Expression as E;
+            // all sequences of length 0..=4 over two items (and one of another size)
+            let items: [Vec<u8>; 3] = [vec![0x41; 28], vec![0x42; 28], vec![0x43; 5]];
+            let mut seqs: Vec<Vec<usize>> = vec![vec![]];
+            let mut frontier: Vec<Vec<usize>> = vec![vec![]];
+            for _ in 0..4 {
+                let mut next = vec![];
+                for s in &frontier {
+                    for i in 0..3 {
+                        let mut t = s.clone();
+                        t.push(i);
+                        next.push(t);
+                    }
+                }
+                seqs.extend(next.iter().cloned());
+                frontier = next;
+            }
+            for seq in seqs {
+                let mut tx = tirgen::place(0, tirb::assets(vec![tirb::lovelace(200_000)]));
+                tx.signers = Some(tir::Signers { signers: seq.iter().map(|i| E::Bytes(items[*i].clone())).collect() });
+                let refs: Vec<UtxoRef> = seq.iter().map(|i| UtxoRef { txid: vec![0x60 + *i as u8; 32], index: *i as u32 }).collect();
+                tx.references = vec![E::UtxoRefs(refs.clone()), E::UtxoRefs(refs)];
+                drive(&tx, &ArgMap::new(), &all_stores[0].1, &all_pp[0].1, &mut o, &json!({"signers / references": seq}), "ir-level");
+                o.key(hash64(&("repeated", seq)));
             }
             return o;
         }
